@@ -438,8 +438,18 @@ def r14_zone_pair(ctx):
         conv_idx, read_idx = None, None
         conv_if = None
         for i, st in enumerate(df.node.body):
+            # the top-level statement under which the point is re-zoned
+            # (assigned from its own to_utc() / to_time_zone()), whatever
+            # shape its test on the custom zone has
             if isinstance(st, ast.If) and "custom_time_zone" in U(st.test) \
-                    and "is not None" in U(st.test):
+                    and conv_idx is None and any(
+                        isinstance(x, ast.Assign) and U(
+                            x.targets[0]) == tpn and isinstance(
+                                x.value, ast.Call) and isinstance(
+                                    x.value.func, ast.Attribute) and
+                        x.value.func.attr in ("to_utc", "to_time_zone") and
+                        U(x.value.func.value) == tpn
+                        for x in ast.walk(st)):
                 conv_idx, conv_if = i, st
             for n in ast.walk(st):
                 if isinstance(n, ast.Call) and U(n.func) == "getattr" and \
